@@ -24,6 +24,8 @@ var reValidUser = regexp.MustCompile(`^[A-Za-z][A-Za-z0-9]{1,11}$`)
 
 type oracle struct {
 	have    bool
+	loose   bool // a request was refused half-way with ErrBusy: later requests are judged by judgeLoose
+	busy    bool // Shm.BBusyState is held by "another process": requests are recorded, not judged
 	judged  bool
 	why     string
 	shape   string
@@ -215,7 +217,15 @@ func (p *oracle) decide(q *request) *expectation {
 		return e
 	}
 	e.class = "ok"
-	// the header the creation rules prescribe
+	p.buildImage(q, e)
+	return e
+}
+
+// buildImage: the header the creation rules prescribe for q (e.img, e.mods).
+func (p *oracle) buildImage(q *request, e *expectation) {
+	name13 := pad(q.name, 13)
+	e.name = cstrOf(name13)
+	e.mods = nil
 	h := &ptttype.BoardHeaderRaw{}
 	copy(h.Brdname[:], name13)
 	copy(h.Title[0:4], q.bclass)
@@ -263,7 +273,63 @@ func (p *oracle) decide(q *request) *expectation {
 	var bb bytes.Buffer
 	must(binary.Write(&bb, binary.LittleEndian, h))
 	e.img = bb.Bytes()
-	return e
+}
+
+// judgeLoose: after a request was refused with ErrBusy half-way (its record is in .BRD, the shared copy is not
+// loaded) the abstract table no longer tells which slot the next board gets; what is still judged is the property
+// itself for every later request: an accepted board's .BRD record, shared copy and name-index entry carry ITS
+// header, no other record is rewritten, the count equals the number of records, both indexes are sorted; a
+// refused one changes nothing.
+func (p *oracle) judgeLoose(i int, q *request, res string, slot int, before, now *snapshot) string {
+	what := describe(q) + " after a request that was refused while the board cache was busy"
+	if res == "PANIC" || res == "TIMEOUT" {
+		run.Fail(i, "crash:newboard", fmt.Sprintf("%s: %s (%s)", what, res, hx.LastPanic))
+		return "loose:crash"
+	}
+	if !strings.HasPrefix(res, "ok:") || slot < 0 {
+		if d := sideEffects(before, now); len(d) > 0 {
+			run.Fail(i, "refused-sideeffect", fmt.Sprintf("%s: refused (%s) but %s", what, res, strings.Join(d, "; ")))
+		}
+		return "loose:refused"
+	}
+	e := &expectation{}
+	p.buildImage(q, e)
+	k := slot
+	if got := recAt(now.brd, k); !bytes.Equal(got, e.img) {
+		run.Fail(i, "record", fmt.Sprintf("%s: accepted as bid %d, but slot %d of .BRD holds name %q instead of the new header", what, k+1, k, nameSafe(got)))
+	}
+	for _, j := range changedSlots(before.brd, now.brd) {
+		if j != k {
+			run.Fail(i, "frame:brd", fmt.Sprintf("%s: accepted as bid %d, but slot %d of .BRD was rewritten", what, k+1, j))
+			break
+		}
+	}
+	wantCache := append([]byte(nil), e.img...)
+	for x := 0; x < 8; x++ {
+		wantCache[offFC+x] = 0
+	}
+	if k < MAXB {
+		gotCache := append([]byte(nil), now.cache[k*RECSZ:(k+1)*RECSZ]...)
+		binary.LittleEndian.PutUint32(gotCache[offAttr:], binary.LittleEndian.Uint32(gotCache[offAttr:])&^uint32(ptttype.BRD_POSTMASK)|binary.LittleEndian.Uint32(wantCache[offAttr:])&uint32(ptttype.BRD_POSTMASK))
+		if !bytes.Equal(gotCache, wantCache) {
+			run.Fail(i, "coherent:cache", fmt.Sprintf("%s: accepted as bid %d; Shm.BCache[%d] carries name %q", what, k+1, k, nameSafe(gotCache)))
+		}
+	}
+	name13 := pad(q.name, 13)
+	for _, v := range [][]byte{name13, upperASCII(name13), foldASCII(name13)} {
+		if g := getBidOf(v); g != fmt.Sprint(k+1) {
+			run.Fail(i, "coherent:index", fmt.Sprintf("%s: accepted as bid %d, but GetBid(%q) = %s", what, k+1, cstrOf(v), g))
+			break
+		}
+	}
+	if int(now.bn) != len(now.brd)/RECSZ {
+		run.Fail(i, "count", fmt.Sprintf("%s: BNumber = %d, .BRD has %d records", what, now.bn, len(now.brd)/RECSZ))
+	}
+	cname := func(j int) []byte { return foldASCII(cstrOf(now.cache[j*RECSZ+offName : j*RECSZ+offName+13])) }
+	if !sortedOK(now.sn, cname) {
+		run.Fail(i, "index:sorted", fmt.Sprintf("%s: BSorted by name is not a sorted permutation: %v", what, now.sn))
+	}
+	return "loose:accepted"
 }
 
 func getBidOf(name []byte) string {
@@ -357,6 +423,23 @@ func (p *oracle) judge(i int, line string, q *request, res string, slot int, bef
 	}
 	if !p.judged {
 		return "unjudged"
+	}
+	if p.busy {
+		// the board cache is being rebuilt by someone else for the whole call: what the request answers is not
+		// judged; a request that is not accepted leaves the abstract table as it is, and the requests made once
+		// the flag is released are judged against it.
+		if strings.HasPrefix(res, "ok:") {
+			p.judged, p.why = false, "accepted while the cache was busy"
+		} else {
+			if len(sideEffects(before, now)) > 0 {
+				p.loose = true
+			}
+			p.note("busy-"+res, "busy not judged: "+describe(q)+" answered "+res+" while Shm.BBusyState was held; side effects: "+strings.Join(sideEffects(before, now), "; "))
+		}
+		return "busy"
+	}
+	if p.loose {
+		return p.judgeLoose(i, q, res, slot, before, now)
 	}
 	e := p.decide(q)
 	what := describe(q) + " on a table of " + fmt.Sprint(len(p.table)) + " slots (vacated: " + csvInts(p.vacated()) + ")"
